@@ -79,20 +79,44 @@ func c03Header(c *core.Ctx) {
 			c03HeaderFn(c, s.callee)
 		}
 	}
-	// the request builder(s)
-	done := map[ast.Node]bool{}
-	for _, s := range stores {
-		if !done[s.f.Node] {
-			done[s.f.Node] = true
-			var mine []*c03hdrStore
+	// the request builder(s), by role: the innermost function of the package whose reach
+	// contains both the request constructor and a store of the stripped header (so that the
+	// constructor or the store may live in helpers)
+	has := func(g *flow.Func) (ctor bool, mine []*c03hdrStore) {
+		for _, h := range reach(g, 2) {
+			if len(callsTo(h, h.Body, false, "net/http.NewRequestWithContext", "net/http.NewRequest")) > 0 {
+				ctor = true
+			}
 			for _, t := range stores {
-				if t.f.Node == s.f.Node {
+				if t.f.Body == h.Body {
 					mine = append(mine, t)
 				}
 			}
-			c03Request(c, s.f, mine)
 		}
+		return
 	}
+	cands := funcsByRole(c, c03px, func(g *flow.Func, fd *ast.FuncDecl) bool {
+		ctor, mine := has(g)
+		return ctor && len(mine) > 0
+	})
+	builders := 0
+	for _, g := range cands {
+		inner := false
+		for _, h := range reach(g, 2)[1:] {
+			for _, o := range cands {
+				if o.Body == h.Body {
+					inner = true
+				}
+			}
+		}
+		if inner {
+			continue
+		}
+		_, mine := has(g)
+		builders++
+		c03Request(c, g, mine)
+	}
+	c.RequireCount("R-C03-4", "functions building the outbound request (constructor + header store in reach)", builders, 1)
 	c03AddrClassifier(c)
 }
 
@@ -419,7 +443,9 @@ func (a *c03hdrAnalysis) unit(f *flow.Func, H map[types.Object]bool, depth int) 
 
 	// --- Connection-value loops and the tokens derived from them
 	type connLoop struct {
-		rs      *ast.RangeStmt
+		lp      *c03loop
+		rs      ast.Stmt
+		readAt  ast.Node              // node at which the Connection values are read
 		fromH   bool                  // values are read from the outbound header itself
 		tainted map[types.Object]bool // variables holding (parts of) the values
 		idents  map[types.Object]*ast.Ident
@@ -427,13 +453,10 @@ func (a *c03hdrAnalysis) unit(f *flow.Func, H map[types.Object]bool, depth int) 
 		chain   *c03chain // rs … innermost loop enclosing the listed Del
 	}
 	var conns []*connLoop
-	ast.Inspect(f.Body, func(n ast.Node) bool {
-		rs, ok := n.(*ast.RangeStmt)
-		if !ok || rs.Value == nil {
-			return true
-		}
+	for _, lp := range c03loops(f, f.Body) {
+		collExpr, defAt := c03resolveLocal(f, lp.coll)
 		var hdr ast.Expr
-		switch x := ast.Unparen(rs.X).(type) {
+		switch x := collExpr.(type) {
 		case *ast.IndexExpr:
 			if tv, ok := f.Info.Types[x.X]; ok && c03isHeaderType(tv.Type) {
 				if tvk, ok := f.Info.Types[x.Index]; ok && tvk.Value != nil && tvk.Value.ExactString() == `"Connection"` {
@@ -448,15 +471,23 @@ func (a *c03hdrAnalysis) unit(f *flow.Func, H map[types.Object]bool, depth int) 
 			}
 		}
 		if hdr == nil {
-			return true
+			continue
 		}
-		vid, ok := rs.Value.(*ast.Ident)
-		if !ok {
-			return true
+		cl := &connLoop{lp: lp, rs: lp.stmt, fromH: isH(hdr), tainted: map[types.Object]bool{}, idents: map[types.Object]*ast.Ident{}}
+		cl.readAt = defAt
+		if cl.readAt == nil {
+			cl.readAt = lp.coll
 		}
-		cl := &connLoop{rs: rs, fromH: isH(hdr), tainted: map[types.Object]bool{}, idents: map[types.Object]*ast.Ident{}}
-		cl.tainted[c03obj(f, vid)] = true
-		cl.idents[c03obj(f, vid)] = vid
+		// the element: the value variable, or (index forms) anything indexed by the key
+		elemObjs := map[types.Object]bool{}
+		if lp.val != nil {
+			elemObjs[lp.val] = true
+		} else {
+			elemObjs[lp.key] = true
+		}
+		for o := range elemObjs {
+			cl.tainted[o] = true
+		}
 		for changed := true; changed; {
 			changed = false
 			taint := func(l ast.Expr) {
@@ -468,7 +499,7 @@ func (a *c03hdrAnalysis) unit(f *flow.Func, H map[types.Object]bool, depth int) 
 					}
 				}
 			}
-			ast.Inspect(rs.Body, func(m ast.Node) bool {
+			ast.Inspect(lp.body, func(m ast.Node) bool {
 				switch s := m.(type) {
 				case *ast.AssignStmt:
 					for i, r := range s.Rhs {
@@ -483,35 +514,51 @@ func (a *c03hdrAnalysis) unit(f *flow.Func, H map[types.Object]bool, depth int) 
 						}
 					}
 				case *ast.RangeStmt:
-					if c03mentions(f, s.X, cl.tainted) && s.Value != nil {
-						taint(s.Value)
+					if c03mentions(f, s.X, cl.tainted) {
+						if s.Value != nil {
+							taint(s.Value)
+						} else if s.Key != nil {
+							taint(s.Key)
+						}
+					}
+				case *ast.ForStmt:
+					if in := c03loopOf(f, s); in != nil && c03mentions(f, in.coll, cl.tainted) {
+						if id, ok := s.Init.(*ast.AssignStmt).Lhs[0].(*ast.Ident); ok {
+							taint(id)
+						}
 					}
 				}
 				return true
 			})
 		}
-		for _, call := range calls(rs.Body, false) {
+		// the value variable itself can be tested for emptiness too
+		ast.Inspect(lp.body, func(m ast.Node) bool {
+			if id, ok := m.(*ast.Ident); ok && cl.tainted[c03obj(f, id)] && cl.idents[c03obj(f, id)] == nil {
+				cl.idents[c03obj(f, id)] = id
+			}
+			return true
+		})
+		derived := map[types.Object]bool{}
+		for o := range cl.tainted {
+			if !elemObjs[o] {
+				derived[o] = true
+			}
+		}
+		for _, call := range calls(lp.body, false) {
 			if op, recv := c03hdrOp(f, call); op == "Del" && len(call.Args) == 1 && isH(recv) {
-				if id, ok := ast.Unparen(call.Args[0]).(*ast.Ident); ok && cl.tainted[c03obj(f, id)] && c03obj(f, id) != c03obj(f, vid) {
+				arg := call.Args[0]
+				switch {
+				case c03mentions(f, arg, derived):
 					cl.del = call
-				} else if ok && c03obj(f, id) == c03obj(f, vid) && cl.del == nil {
+				case lp.isElem(f, arg) && len(derived) == 0 && cl.del == nil:
 					// deleting the unsplit value: only right when no splitting happens at all
-					split := false
-					for o := range cl.tainted {
-						if o != c03obj(f, vid) {
-							split = true
-						}
-					}
-					if !split {
-						cl.del = call
-					}
+					cl.del = call
 				}
 			}
 		}
 		a.loops++
 		conns = append(conns, cl)
-		return true
-	})
+	}
 	for _, cl := range conns {
 		if cl.del == nil {
 			continue
@@ -529,35 +576,25 @@ func (a *c03hdrAnalysis) unit(f *flow.Func, H map[types.Object]bool, depth int) 
 
 	// --- constant-table loops deleting their element from H
 	type tableLoop struct {
-		rs   *ast.RangeStmt
+		rs   ast.Stmt
 		keys []string
 		it   *c03iter
 		del  *ast.CallExpr
 	}
 	var tables []*tableLoop
-	ast.Inspect(f.Body, func(n ast.Node) bool {
-		rs, ok := n.(*ast.RangeStmt)
-		if !ok || rs.Value == nil {
-			return true
-		}
-		vid, ok := rs.Value.(*ast.Ident)
+	for _, lp := range c03loops(f, f.Body) {
+		tbl, _ := c03resolveLocal(f, lp.coll)
+		keys, ok := a.table(f, tbl)
 		if !ok {
-			return true
+			continue
 		}
-		keys, ok := a.table(f, rs.X)
-		if !ok {
-			return true
-		}
-		for _, call := range calls(rs.Body, false) {
-			if op, recv := c03hdrOp(f, call); op == "Del" && len(call.Args) == 1 && isH(recv) {
-				if id, ok := ast.Unparen(call.Args[0]).(*ast.Ident); ok && c03obj(f, id) == c03obj(f, vid) {
-					tables = append(tables, &tableLoop{rs: rs, keys: keys, del: call, it: newC03iter(f, rs, nil)})
-					break
-				}
+		for _, call := range calls(lp.body, false) {
+			if op, recv := c03hdrOp(f, call); op == "Del" && len(call.Args) == 1 && isH(recv) && lp.isElem(f, call.Args[0]) {
+				tables = append(tables, &tableLoop{rs: lp.stmt, keys: keys, del: call, it: newC03iter(f, lp.stmt, nil)})
+				break
 			}
 		}
-		return true
-	})
+	}
 
 	// --- helper calls receiving the outbound header
 	helperOf := func(call *ast.CallExpr) (*types.Func, map[types.Object]bool, *flow.Func) {
@@ -617,7 +654,7 @@ func (a *c03hdrAnalysis) unit(f *flow.Func, H map[types.Object]bool, depth int) 
 		OnBlock: func(st *flow.State, b *cfg.Block) {
 			for _, t := range tables {
 				t.it.block(st, b)
-				if b.Stmt == t.rs && b.Kind == cfg.KindRangeLoop {
+				if c03atHead(b, t.rs) {
 					for _, k := range t.keys {
 						st.Set("ev:del:"+k, flow.True)
 					}
@@ -627,14 +664,14 @@ func (a *c03hdrAnalysis) unit(f *flow.Func, H map[types.Object]bool, depth int) 
 				if cl.chain != nil {
 					cl.chain.block(st, b)
 				}
-				if b.Stmt == cl.rs && b.Kind == cfg.KindRangeLoop && cl.del != nil {
+				if c03atHead(b, cl.rs) && cl.del != nil {
 					st.Set(c03evListed, flow.True)
 				}
 			}
 		},
 		OnNode: func(st *flow.State, n ast.Node) {
 			for _, cl := range conns {
-				if n == ast.Node(cl.rs.X) && cl.fromH && connDeleted(st) {
+				if n == cl.readAt && cl.fromH && connDeleted(st) {
 					st.Set(c03evBadOrder, flow.True)
 				}
 			}
